@@ -348,7 +348,7 @@ def main():
                      'Gen')
     g = Gen()
     g.run()
-    sk_text, sk_json, sk_failed = skeleton.generate(REPO)
+    sk_text, sk_tree, sk_json, sk_failed = skeleton.generate(REPO)
     g.failed += sk_failed
     changed = []
     if write_if_changed(os.path.join(outdir, 'Params.v'), g.params_v()):
@@ -357,6 +357,8 @@ def main():
         changed.append('Exprs.v')
     if write_if_changed(os.path.join(outdir, 'Skeleton.v'), sk_text):
         changed.append('Skeleton.v')
+    if write_if_changed(os.path.join(outdir, 'SkelTree.v'), sk_tree):
+        changed.append('SkelTree.v')
     info = {'repo': REPO,
             'params': {n: v for n, _, _, v in g.params},
             'exprs': {e[0]: {'args': e[1], 'body': e[3], 'source': e[5]}
